@@ -513,8 +513,22 @@ def analyse(prog, fn, lo, hi, arg_local=1, assume=None):
     """per-piece results [(piece, mono, interval)] over the input range [lo, hi]"""
     me = MonoEval(prog, fn, arg_local, assume)
     out = []
+    oty = (fn.d.get("output") or "").strip()
+    tr = TYPE_RANGE.get(oty) if oty and oty[0] in "iu" else None
     for pc in me.pieces(lo, hi):
         m, iv = me.eval_fn(pc)
+        if tr is not None and iv is not None and m != U and (iv[0] < tr[0] or iv[1] > tr[1]) \
+                and abs(iv[0]) != INF and abs(iv[1]) != INF:
+            # the computed value leaves the integer type of the result: an unchecked operation
+            # (a left shift that loses bits, wrapping arithmetic) wrapped on the way
+            span = tr[1] - tr[0] + 1
+            if iv[0] == iv[1]:
+                w = (iv[0] - tr[0]) % span + tr[0]
+                me.notes.append("the value %g leaves %s and wraps to %g" % (iv[0], oty, w))
+                m, iv = C, (w, w)
+            else:
+                me.notes.append("values in [%g, %g] leave %s" % (iv[0], iv[1], oty))
+                m, iv = "W", tr
         out.append((pc, m, iv))
     return out
 
